@@ -138,6 +138,8 @@ def run_script(exe, work, idx, edge, creds=None, writecap=0):
     if s.get("prompt") == "slow" and mode == "conv":   # the conversation takes longer than the socket timeout
         prompt_ms = TIMEOUT_S * 1000 + 500
         env["PAMDRV_PROMPT_DELAY_MS"] = str(prompt_ms)
+    if s.get("signals", "none") != "none":     # handled signals in the host process, spaced closer than the timeout
+        env["PAMDRV_SIGNALS"] = "%s:%d" % (s["signals"], 400)
     t0 = time.time()
     try:
         p = subprocess.run(argv, stdout=subprocess.PIPE, stderr=subprocess.PIPE, timeout=9, env=env)
@@ -160,12 +162,15 @@ def judge(ctx, results, prop="C20"):
     n = 0
     for r in results:
         s = r["edge"]["script"]
-        tag = "%s/cut=%s/%s/%s%s" % (s["reply"]["id"], s["cut"], s["delay"], s["after"], "/stale-errno" if s["staleErrno"] else "")
+        tag = "%s/cut=%s/%s/%s%s%s" % (s["reply"]["id"], s["cut"], s["delay"], s["after"], "/stale-errno" if s["staleErrno"] else "",
+                                       "/signals-" + s["signals"] if s.get("signals", "none") != "none" else "")
         n += 1
         if r["hung"]:
             key = "no-termination:stale-errno-eintr" if s["staleErrno"] and s["after"] == "close" else "no-termination:" + tag
             if r.get("prompt_ms"):
                 key = "no-termination:slow-conversation"
+            if s.get("signals", "none") != "none":
+                key = "no-termination:signals-" + s["signals"]
             ctx.violation(prop, key, "pam_sm_authenticate did not return within 9 s (script %s, errno on entry %s)" % (tag, "EINTR" if s["staleErrno"] else 0))
             continue
         if r["exit"] == -13:
